@@ -526,14 +526,14 @@ Proof.
   - intros H. right. apply IH. exact H.
 Qed.
 
-Lemma digest_fields_spec al dial conf l f :
-  In f (digest_fields al dial conf l) ->
-  exists r, In r l /\ r_init r = true /\ digest_field al dial conf r = Some f /\ f_ty f = resolve_field dial conf r /\
-            f_req f = (match r_def r with RNone => true | _ => false end) /\
+Lemma digest_fields_spec al om dial conf l f :
+  In f (digest_fields al om dial conf l) ->
+  exists r, In r l /\ r_init r = true /\ digest_field al om dial conf r = Some f /\ f_ty f = resolve_field dial conf r /\
+            f_req f = (match r_def r with RNone => negb (om && nullable_ty (r_ty r)) | _ => false end) /\
             (f_default f <> None <-> exists v, r_def r = RDefault v).
 Proof.
   induction l as [|r t IH]; simpl; [contradiction|].
-  destruct (digest_field al dial conf r) as [g|] eqn:Ed.
+  destruct (digest_field al om dial conf r) as [g|] eqn:Ed.
   - intros [<-|H].
     + exists r. assert (Ei: r_init r = true) by (unfold digest_field in Ed; destruct (r_init r); [reflexivity|discriminate]).
       split; [left; reflexivity|]. split; [exact Ei|]. split; [exact Ed|].
